@@ -14,7 +14,7 @@
 (* Sim = TRUE draws each choice with RandomElement (one successor per      *)
 (* state: for `tlc -simulate`); Sim = FALSE enumerates every choice.       *)
 (***************************************************************************)
-EXTENDS IOUtils, MonC07, MonC08, MonC09, MonC10, MonC11, MonC12, MonC13, MonC19, Randomization
+EXTENDS IOUtils, MonC07, MonC08, MonC09, MonC10, MonC11, MonC12, MonC13, MonC15, MonC19, Randomization
 
 CONSTANTS Sim,        \* BOOLEAN
           Forge,      \* BOOLEAN: forged / duplicated timers allowed
@@ -52,7 +52,7 @@ Cfgs == IF Scope = "tiny"
                                             pa \in BOOLEAN, pad \in BOOLEAN, pg \in BOOLEAN}
 
 MonInit == [C07 |-> C07Init, C08 |-> C08Init, C09 |-> C09Init, C10 |-> C10Init, C11 |-> C11Init, C12 |-> C12Init,
-            C13 |-> C13Init, C19 |-> C19Init]
+            C13 |-> C13Init, C15 |-> C15Init, C19 |-> C19Init]
 
 Init ==
     /\ \E g \in Pick(IF Scope = "tiny" THEN {0} ELSE {0, 1}), pol \in Pick(Pols), cfg \in Pick(Cfgs),
@@ -162,7 +162,7 @@ MonStep(m, o) ==
         IF p \notin MonSet THEN m[p]
         ELSE CASE p = "C07" -> C07Step(m[p], o) [] p = "C08" -> C08Step(m[p], o)
                [] p = "C09" -> C09Step(m[p], o) [] p = "C10" -> C10Step(m[p], o)
-               [] p = "C11" -> C11Step(m[p], o) [] p = "C12" -> C12Step(m[p], o) [] p = "C13" -> C13Step(m[p], o)
+               [] p = "C11" -> C11Step(m[p], o) [] p = "C12" -> C12Step(m[p], o) [] p = "C13" -> C13Step(m[p], o) [] p = "C15" -> C15Step(m[p], o)
                [] p = "C19" -> C19Step(m[p], o)]
 
 Do(call) ==
@@ -173,7 +173,8 @@ Do(call) ==
           hl == [i \in DOMAIN r.hcalls |-> [item |-> r.hcalls[i].item, from |-> r.hcalls[i].from, v |-> hv]]
           o == [node |-> 0, call |-> call[1], args |-> call[2], res |-> r.res, out |-> out, hlog |-> hl,
                 now |-> steps, pre |-> PubOf(st), post |-> PubOf(r.st), hpre |-> HookOf(st),
-                hpost |-> HookOf(r.st), env |-> EnvRec]
+                hpost |-> HookOf(r.st), env |-> EnvRec,
+                static |-> [pol |-> st.pol, codec |-> st.codec, hrel |-> st.hrel, hpred |-> st.hpred]]
           bumps == (r.st.tok - st.tok + TokenMod) % TokenMod
           \* a timer belongs to the epoch whose token it carries (a call may end several epochs)
           newTimers == LET T == OTimers(r.out) IN
